@@ -424,3 +424,7 @@ mod tests {
         });
     }
 }
+
+#[cfg(all(aws_s2n_quic_verif, test))]
+#[path = "/verif/harness/core/slot.rs"]
+mod verif;
